@@ -5,7 +5,7 @@
    did before those commits (refuting witnesses of the full statements) is recorded in C14_history_before_fixes
    and replayed on the implementation as ordinary corpus cases by harness/props/c14.py. *)
 From Coq Require Import ZArith List Bool Lia Arith PeanoNat.
-From IRV Require Import Base.Exn Gen.C14Gen C14.Model C14.ProofsInfra C14.ProofsApi C14.ProofsPasses.
+From IRV Require Import Base.Exn Gen.C14Gen C14.Model C14.ProofsInfra C14.ProofsApi C14.ProofsPasses C14.ProofsOutputFix.
 Import ListNotations.
 Local Open Scope nat_scope.
 
@@ -168,6 +168,58 @@ Proof.
   apply io_converges; [exact rm_inits_sound | exact rm_inits_idem].
 Qed.
 Print Assumptions C14_converges_inits_inputs.
+
+(* ================================================================= the flag is EXACT for the modelled passes:
+   modified=False iff the model state is what it was (so modified=True implies an observable change) *)
+Theorem C14_flag_exact :
+  (forall m, snd (clear_pass m) = false <-> fst (clear_pass m) = m)
+  /\ (forall g, snd (dce g) = false <-> fst (dce g) = g)
+  /\ (forall sort m, snd (topo_pass sort m) = false <-> fst (topo_pass sort m) = m)
+  /\ (forall m, snd (add_pass m) = false <-> fst (add_pass m) = m)
+  /\ (forall m, snd (rm_pass m) = false <-> fst (rm_pass m) = m).
+Proof.
+  split; [intros m; split; [apply clear_flag_sound | apply clear_flag_complete]|].
+  split; [intros g; split; [apply dce_flag_sound | apply dce_flag_complete]|].
+  split; [intros sort m; split; [apply topo_flag_sound | apply topo_flag_complete]|].
+  split; [intros m; split; [apply add_pass_flag_sound | apply add_pass_flag_complete]|].
+  intros m; split; [apply io_flag_sound; exact rm_inits_sound | apply rm_pass_flag_complete].
+Qed.
+Print Assumptions C14_flag_exact.
+
+(* ================================================================= OutputFixPass (contract-level model: per graph-like
+   its inputs, outputs and the Identity nodes appended to it; isin = Value.is_graph_input) *)
+Theorem C14_outputfix_flag_exact :
+  forall (isin : positive -> bool) next m,
+  snd (of_pass isin next m) = false <-> fst (of_pass isin next m) = m.
+Proof. intros isin next m. split; [apply of_pass_sound | apply of_pass_complete]. Qed.
+Print Assumptions C14_outputfix_flag_exact.
+
+(* fixpoint after ONE application, whenever fresh values are numbered above every graph input and every output *)
+Theorem C14_outputfix_fixpoint :
+  forall (isin : positive -> bool) (base : positive), (forall v, isin v = true -> (v < base)%positive) ->
+  forall next next' m, (base <= next)%positive ->
+  Forall (fun g => forall v, In v (o_outs g) -> (v < next)%positive) m ->
+  snd (of_pass isin next' (fst (of_pass isin next m))) = false
+  /\ fst (of_pass isin next' (fst (of_pass isin next m))) = fst (of_pass isin next m).
+Proof. intros isin base Hb next next' m. apply (of_pass_idem isin base Hb). Qed.
+Print Assumptions C14_outputfix_fixpoint.
+
+(* no damage: every output of a graph after the pass is one of its old outputs or the output of an Identity node
+   that the pass appended to THAT graph *)
+Theorem C14_outputfix_outputs_owned :
+  forall (isin : positive -> bool) next g v,
+  In v (o_outs (fst (of_graph isin next g))) ->
+  In v (o_outs g) \/ exists i, In (i, v) (o_added (fst (of_graph isin next g))).
+Proof. exact of_graph_owned. Qed.
+Print Assumptions C14_outputfix_outputs_owned.
+
+(* ================================================================= RemoveUnusedOpsetsPass: exact flag and fixpoint after one run *)
+Theorem C14_unused_opsets_contract :
+  forall pf m,
+  (snd (uo_pass pf m) = false <-> fst (uo_pass pf m) = m)
+  /\ snd (uo_pass pf (fst (uo_pass pf m))) = false.
+Proof. intros pf m. split; [apply uo_pass_exact | apply uo_pass_idem]. Qed.
+Print Assumptions C14_unused_opsets_contract.
 
 (* ================================================================= history: what the fixes repaired.
    The models of the code before the fix commits violate the statements above on these witnesses, and the
